@@ -152,10 +152,40 @@ def r1_canonical(facts, rep):
         if "FromIterator" in b.path and "compound::Compound" in b.path and b.path.endswith("::from_iter"):
             fi = b
     if rep.ob("C02-R1", "anchor:Compound::from_iter", fi is not None, "FromIterator for Compound found"):
-        ins = flow.calls_named(fi, lambda n: n.endswith("BTreeMap::<K, V, A>::insert"))
-        zs = zero_switches(fi)
-        good = bool(ins) and all(any(ot is not None and i[0] in (fi.cfg.blocks_only_via_edge(sw, ot) | {ot}) for sw, zt, ot, cmpd in zs) for i in ins)
-        rep.ob("C02-R1", "Compound::from_iter:filters-zero", good, "from_iter inserts only entries whose power was compared non-zero", fi.site())
+        # summary over two symbolic entries (loops, adaptors and `extend` followed): an entry reaches the map only on a path
+        # where its own power was compared with 0 and found different; in input order
+        from . import unitops as U2_
+        try:
+            _, fres = U2_.from_iter_summary(facts)
+        except core.Undecided as e:
+            fres = None
+            rep.ob("C02-R1", "Compound::from_iter:filters-zero", False, "undecided: %s" % e, fi.site())
+        if fres is not None:
+            bad = []
+            n_ins = 0
+            for r in fres:
+                if r["kind"] != "ret":
+                    bad.append("from_iter can end in %s" % r["kind"])
+                    continue
+                order = []
+                for e in r["log"]:
+                    if e[0] != "insert":
+                        continue
+                    n_ins += 1
+                    stv = e[3]
+                    pw = stv.field(0) if isinstance(stv, Agg) and stv.path == "compound::State" else None
+                    order.append(repr(pw))
+                    nz = False
+                    for p_, b_ in r["pc"]:
+                        if isinstance(p_, T) and p_.op in ("Eq", "Ne", "==") and len(p_.args) == 2 and pw in p_.args and any(
+                                (isinstance(a_, Const) and a_.v == 0) or a_ == K(0) for a_ in p_.args):
+                            nz = nz or (p_.op == "Ne" and b_ is True) or (p_.op in ("Eq", "==") and b_ is False)
+                    if not nz:
+                        bad.append("an entry with power %r is inserted without having been compared non-zero" % (pw,))
+                if order != sorted(order):
+                    bad.append("entries are inserted out of input order: %s" % order)
+            rep.ob("C02-R1", "Compound::from_iter:filters-zero", not bad and n_ins >= 2, "; ".join(bad[:2]) if bad else
+                   "from_iter inserts only entries whose power was compared non-zero, in input order (%d insertions over the paths)" % n_ins, fi.site())
     cp = facts.fn("compound::Compound::pow")
     if cp is not None:
         # summary of Compound::pow (helpers and adaptors followed): every entry that reaches the new map carries a power
